@@ -15,7 +15,7 @@ RULE = ('one case = one generated peer (name lists over database names including
         'group-exchange moduli 2048..8192): the real CLI writes a policy with -M, the file is loaded and evaluated with -P against the same peer (must pass with no errors) and against every single-attribute perturbation of it '
         '(insert / delete / swap-adjacent one name in each of kex, host keys, ciphers, MACs; other host-key size, CA size, CA type, modulus size; quick: 8 sampled perturbations per peer, thorough: all positions), which must fail naming the field; '
         'plus every built-in policy against a peer synthesised exactly from it (client policies through -c).  Non-trivial: the policy file was written and at least one -P verdict compared; distinct = distinct (peer, perturbation)')
-REQUIRED = {'policies_made': 15, 'same_peer_passes': 15, 'perturbations_checked': 100, 'builtin_policies_checked': 40, 'names_with_equals': 3, 'size_perturbations': 10}
+REQUIRED = {'policies_made': 15, 'same_peer_passes': 15, 'perturbations_checked': 100, 'builtin_policies_checked': 40, 'names_with_equals': 3, 'size_perturbations': 10, 'ca_perturbations': 4}
 ASSUMPTIONS = ['the mismatched field is recognised by keyword class (exchange / host key / cipher / mac / size / CA / modulus), case-insensitively, so rewording does not alarm',
                'perturbations that would empty a list are skipped (RFC 4253 requires non-empty lists)']
 MANIFEST = {
@@ -33,7 +33,7 @@ def cases(tier, seed):
     cs = []
     n = 24 if tier == 'quick' else 400
     for i in range(n):
-        cs.append({'kind': 'roundtrip', 'seed': rng.randrange(1 << 30), 'profile': ['plain', 'equals', 'cert', 'gex', 'rsa', 'gss'][i % 6], 'all': tier == 'thorough', 'json': i % 2 == 0})
+        cs.append({'kind': 'roundtrip', 'seed': rng.randrange(1 << 30), 'profile': ['plain', 'equals', 'cert', 'gex', 'rsa', 'cert', 'gss', 'cert'][i % 8], 'all': tier == 'thorough', 'json': i % 2 == 0})
     for name in BUILTIN_POLICIES:
         styles = ['strict'] if tier == 'quick' else ['strict', 'roundup', 'largest']
         for st in styles:
@@ -64,7 +64,7 @@ def make_peer(c):
     if prof == 'cert':
         ct = rng.choice(['ssh-rsa-cert-v01@openssh.com', 'ssh-ed25519-cert-v01@openssh.com'])
         keys = [ct] + keys[:1]
-        ca = rng.choice([{'type': 'rsa', 'bits': rng.choice([2048, 3072, 4096])}, {'type': 'ed25519'}])
+        ca = rng.choice([{'type': 'rsa', 'bits': rng.choice([2048, 3072, 4096])}, {'type': 'rsa', 'bits': rng.choice([1024, 4096, 8192])}, {'type': 'ed25519'}])
         hk[ct] = {'type': 'rsa-cert' if 'rsa' in ct else 'ed25519-cert', 'bits': rng.choice([2048, 3072, 4096]), 'ca': ca}
     if prof == 'rsa' and not any(t in keys for t in ('ssh-rsa', 'rsa-sha2-256', 'rsa-sha2-512')):
         keys.append('rsa-sha2-512')
@@ -186,13 +186,15 @@ def run_roundtrip(c):
         if not c['all']:
             sizes = [x for x in perts if x[0] in ('size', 'ca', 'modulus')]
             lists = [x for x in perts if x[0] not in ('size', 'ca', 'modulus')]
-            perts = rng.sample(lists, min(6, len(lists))) + sizes[:3]
+            perts = rng.sample(lists, min(6, len(lists))) + sizes   # size / CA / modulus perturbations are few: always all of them
         for cls, desc, s2 in perts:
             r3, p3 = audit.audit_server(s2, ['-P', pf] + fmt, cwd=d)
             v, errs = verdict_of(r3, c['json'])
             counters['perturbations_checked'] = counters.get('perturbations_checked', 0) + 1
             if cls in ('size', 'ca', 'modulus'):
                 counters['size_perturbations'] = counters.get('size_perturbations', 0) + 1
+            if cls == 'ca':
+                counters['ca_perturbations'] = counters.get('ca_perturbations', 0) + 1
             if r3.status != 3 or v != 'failed':
                 viol.append(_v('C05/drift-not-detected:%s:%s' % (cls, desc.split(' ')[0]), 'a peer differing in one covered attribute passes the policy made from the original', change=desc, status=r3.status, verdict=v, out=r3.out[-300:]))
                 continue
